@@ -123,7 +123,7 @@ func checkOptionConstructors(r *Run, prog *Program, pfx string) {
 		have[ost.Field(i).Name()] = true
 		found := false
 		for _, row := range pipeSpec {
-			if row.field == ost.Field(i).Name() {
+			if row.field == ost.Field(i).Name() || (optFlag(prog, row.ctor) != "" && optFlag(prog, row.ctor) == ost.Field(i).Name()) {
 				found = true
 			}
 		}
@@ -163,6 +163,12 @@ func checkOptionConstructors(r *Run, prog *Program, pfx string) {
 						continue
 					}
 					probs = append(probs, "stores somewhere other than a field of its *options argument")
+					continue
+				}
+				if fl := optFlag(prog, row.ctor); fl != "" && st.field == fl {
+					if bv, isC := st.val.BoolConst(); !isC || !bv {
+						probs = append(probs, "the presence flag "+fl+" is set to something other than true")
+					}
 					continue
 				}
 				nst++
@@ -262,6 +268,9 @@ func checkGetOpts(r *Run, prog *Program, a *Anchors, pfx string) {
 					ok, why = false, "default budget is "+v.Key()+", expected 0 (unlimited)"
 				}
 			default:
+				if bv, isB := v.BoolConst(); isB && !bv {
+					continue // a presence flag that is off
+				}
 				if !v.IsNil() && !(v.K == sStruct && v.A == nil && len(v.F) == 0) {
 					ok, why = false, "default of "+f+" is "+v.Key()+", expected nil"
 				}
@@ -398,7 +407,6 @@ func checkReissueAtCreation(r *Run, prog *Program, a *Anchors, pfx, listField st
 	r.Floor(pfx+".pipeline", 6)
 	pipeSpec = pipeRows(prog)
 	pos := prog.pos(a.CreateEv.Pos())
-	unkF := &Sym{K: sField, A: optsSym, Str: optField(prog, "WithUnknownValue")}
 	seenUnk, seenNoUnk := false, false
 	for _, c := range creations {
 		L := getPath(c.created, []string{listField})
@@ -442,7 +450,8 @@ func checkReissueAtCreation(r *Run, prog *Program, a *Anchors, pfx, listField st
 			}
 			got[callee.Name()] = args[0].Key()
 		}
-		unkNil, known := evalEq(c.sm.St, unkF, nilSym())
+		unkGiven, known := optionGiven(prog, c.sm.St, optsSym, "WithUnknownValue")
+		unkNil := !unkGiven
 		for _, row := range pipeSpec {
 			if !row.reissued {
 				if _, has := got[row.ctor]; has {
@@ -456,7 +465,7 @@ func checkReissueAtCreation(r *Run, prog *Program, a *Anchors, pfx, listField st
 					r.Check(pfx+".pipeline", "evaluate:"+row.ctor, pos, false, "CreateEvaluator does not test whether an unknown value was configured")
 					continue
 				}
-				want = (&Sym{K: sLoad, A: unkF}).Key()
+				want = optionValueKey(prog, optsSym, "WithUnknownValue")
 				if unkNil {
 					seenNoUnk = true
 					_, has := got[row.ctor]
@@ -651,10 +660,24 @@ func checkEvaluatorPipeline(r *Run, prog *Program, a *Anchors, pfx string) {
 				}
 			}
 			unk := loadField(pRecv, unkField)
+			// the Evaluator's copy of the presence flag, when the setting is optional by flag
+			evalFlag := ""
+			if fl := optFlag(prog, "WithUnknownValue"); fl != "" {
+				wantFl := (&Sym{K: sField, A: optsSym, Str: fl}).Key()
+				for f, v := range created.F {
+					if v.Key() == wantFl {
+						evalFlag = f
+					}
+				}
+			}
 			npaths += len(variants) - 1 // a conditional element judged both ways counts like two paths
 			for _, vr := range variants {
 				got := vr.got
 				unkNil, known := evalEq(vr.st, unk, nilSym())
+				if evalFlag != "" {
+					given, k2 := evalBool(vr.st, loadField(pRecv, evalFlag))
+					unkNil, known = !given, k2
+				}
 				for _, row := range pipeSpec {
 					if !row.reissued {
 						if _, has := got[row.ctor]; has {
@@ -672,6 +695,9 @@ func checkEvaluatorPipeline(r *Run, prog *Program, a *Anchors, pfx string) {
 							continue
 						}
 						want = (&Sym{K: sLoad, A: unk}).Key()
+						if evalFlag != "" {
+							want = unk.Key()
+						}
 						if unkNil {
 							_, has := got[row.ctor]
 							r.Check(pfx+".pipeline", "evaluate:"+row.ctor+":unset", prog.pos(ev.Instr.Pos()), !has, "an unknown value is issued although none was configured")
